@@ -2,6 +2,7 @@ package transactional
 
 import (
 	"errors"
+	"io"
 
 	"github.com/go-git/go-git/v6/plumbing"
 	"github.com/go-git/go-git/v6/plumbing/storer"
@@ -22,6 +23,13 @@ func NewObjectStorage(base, temporal storer.EncodedObjectStorer) *ObjectStorage 
 // SetEncodedObject honors the storer.EncodedObjectStorer interface.
 func (o *ObjectStorage) SetEncodedObject(obj plumbing.EncodedObject) (plumbing.Hash, error) {
 	return o.temporal.SetEncodedObject(obj)
+}
+
+// RawObjectWriter honors the storer.EncodedObjectStorer interface. The
+// object is written into the temporal storage, like SetEncodedObject does;
+// without this method the embedded base storer would receive it directly.
+func (o *ObjectStorage) RawObjectWriter(typ plumbing.ObjectType, sz int64) (io.WriteCloser, error) {
+	return o.temporal.RawObjectWriter(typ, sz)
 }
 
 // HasEncodedObject honors the storer.EncodedObjectStorer interface.
